@@ -3,6 +3,7 @@
 //!   {"obligation": "<label>", "input": ..., "observed": ..., "expected": ...}
 //! The witness search never decides pass/fail (only the verifier does); it attaches failing inputs to red obligations.
 mod c01;
+mod c08;
 
 pub fn report(obligation: &str, input: String, observed: String, expected: String) {
     println!(
@@ -17,6 +18,7 @@ fn main() {
     let seed: u64 = args.get(2).and_then(|s| s.parse().ok()).unwrap_or(0);
     let n = match pid {
         "C01" => c01::run(seed),
+        "C08" => c08::run(seed),
         _ => {
             eprintln!("no witness search for {pid}");
             0
